@@ -356,6 +356,34 @@ def out_of_date(b, F):
     return ood
 
 
+def needed_calls(b, ood, out):
+    """`Exec.Needed` (Lemmas/ExecNeeded.lean, `C04_runs_exactly_needed`) evaluated on the spec, independently of the library:
+    the calls a successful run with the registry executes - a stored call iff it is out of date; a call without a store iff
+    it is requested as output or feeds, directly, a needed node without a store or an out-of-date registered node."""
+    nodes = b.spec["nodes"]
+    registered = set(b.stores)
+    needed = set()
+    for nd in nodes:
+        if nd["id"] in registered and b.kinds[nd["id"]] == "stored" and nd["id"] in ood:
+            needed.add(nd["id"])
+    for o in (out or []):
+        if o not in registered:
+            needed.add(o)                   # consumed by the gather call of the requested output
+    changed = True
+    while changed:
+        changed = False
+        for nd in nodes:
+            k = nd["id"]
+            target = (k not in registered and k in needed) or (k in registered and k in ood)
+            if not target:
+                continue
+            for j in set(nd["args"]) | set(nd["deps"]):
+                if j not in registered and j not in needed:
+                    needed.add(j)
+                    changed = True
+    return {j for j in needed if b.kinds[j] in ("stored", "call", "producer")}
+
+
 def real_stale(b, env, F):
     env.quiet = True
     try:
@@ -624,6 +652,12 @@ def run_history(spec, hseed, steps, driver, props, mode="prim", stress=False):
                     if b.kinds[i] == "stored" and p3 and s.value != fs[i]:
                         viol.append({"property": p3, "what": f"after a successful run store {i} holds {term(s.value) if s.mtime else None}, "
                                      f"from scratch gives {term(fs[i])}", "step": desc})
+                pn = "C04" if "C04" in props else ("C05" if "C05" in props else None)
+                if pn:
+                    want_c = sorted(needed_calls(b, ood_before, out))
+                    if sorted(set(calls)) != want_c:
+                        viol.append({"property": pn, "what": f"executed the calls {sorted(set(calls))}; needed (requested output, out-of-date stored "
+                                     f"values, and what feeds them through nodes without a store) are {want_c}", "step": desc})
                 if "C05" in props:
                     want_w = sorted(i for i in ood_before if i in b.stores and b.kinds[i] == "stored")
                     got_w = sorted(w for w in writes if b.kinds[w] == "stored")
